@@ -10,7 +10,7 @@ from .base import viol
 ID = "C16"
 LEVEL = "exploration"
 TIERS = {"quick": {"cases": 3000, "wall": 100, "min_nontrivial": 1500},
-         "thorough": {"cases": 60000, "wall": 1800, "min_nontrivial": 30000}}
+         "thorough": {"cases": 60000, "wall": 1800, "min_nontrivial": 12000}}
 RULE = ("special-purpose generator: scope trees of depth <= 5 (modules, submodules, main program with or without PROGRAM "
         "statement, external subprograms, block data at top level; contained subprograms, internal subprograms and "
         "named/unnamed BLOCK constructs nested, BLOCKs placed inside IF, SELECT, block DO and non-block labelled DO); "
